@@ -34,6 +34,7 @@ func checkC20(w *World, r *Report) {
 	r.Explanation += " Rules added in later rounds: (R20.7) resolved lookups are held, by package-level variables and stateful types, only as values of map[attributeCacheKey]. (R20.4) a statistics update needs a hit."
 	r.Explanation += " Round 9: (R20.8) the resolver of x.name reaches reflect.Value.MapIndex: attribute access on maps of any type is a key lookup."
 	r.Explanation += " Round 10: (R20.9) map keys do not come from conversions whose failure is ignored."
+	r.Explanation += " Round 13: (R20.10) typed map lookups that become template values see absence."
 	r.RuleText = "obligation = one key literal / StructField.Index use / store into an entry field / write to the cache map; non-trivial = all but constant stores"
 	r.Trusted = []string{"reflect.Type methods are pure functions of the type", "reflect.Value.FieldByIndex follows the whole path"}
 
